@@ -132,6 +132,13 @@ func lang(r *gen.Rand) string {
 }
 
 // own checks each decoder on a reference-built body of its own tag.
+type keptDesc struct {
+	d psi.PmtDescriptor
+	v uint32
+}
+
+var ring []keptDesc
+
 func own(c *mon.Ctx, r *gen.Rand) {
 	c.Eval(5)
 	// maximum_bitrate_descriptor: reserved '11', maximum_bitrate 22 uimsbf (values below 2^21)
@@ -152,6 +159,17 @@ func own(c *mon.Ctx, r *gen.Rand) {
 		c.Fail("decode:stream-max-bitrate-absent", "MaxBitRate() without a maximum bitrate descriptor is not 0", nil)
 	}
 	c.Class(fmt.Sprintf("maxbitrate/hi=%d", bitlen(v)))
+	// descriptors created long ago (thousands of descriptors earlier; 600 cases) still decode to their own value
+	ring = append(ring, keptDesc{d, v})
+	if len(ring) > 600 {
+		old := ring[0]
+		ring = ring[1:]
+		c.Count("descriptor_rechecked_after_600_cases")
+		if g := old.d.DecodeMaximumBitRate(); g != old.v || !old.d.IsMaximumBitrateDescriptor() {
+			c.Fail("decode:maximum-bitrate-of-an-old-descriptor", fmt.Sprintf("a maximum bitrate descriptor created 600 cases (some 5000 descriptors) ago now decodes to %d; it was built for and decoded to %d", g, old.v), wit{Case: "maximum_bitrate", Detail: fmt.Sprint(g)})
+			ring = nil
+		}
+	}
 	// ISO_639_language_descriptor: one or more (code, audio_type) entries
 	l := lang(r)
 	at := r.PickByte([]byte{0, 1, 2, 3, 0x80, 0x81, r.Byte()})
@@ -187,10 +205,16 @@ func own(c *mon.Ctx, r *gen.Rand) {
 	body = append(append([]byte{ext}, l...), purpose<<2|byte(r.Intn(4)))
 	body = append(body, r.Bytes(r.Intn(6))...)
 	d = psi.NewPmtDescriptor(0x7f, body)
-	if g := d.DecodeTTMLIso639LanguageCode(); g != l || !d.IsTTMLSubtitlingDescriptor() {
+	// an extension descriptor of another kind (tag extension other than 0x20) is not a TTML descriptor: the
+	// statement defines no language / purpose for it (decoded as if it were one, or the neutral value)
+	wellFormed := ext == 0x20
+	if !wellFormed {
+		c.Count("ttml.other_tag_extension")
+	}
+	if g := d.DecodeTTMLIso639LanguageCode(); wellFormed && (g != l || !d.IsTTMLSubtitlingDescriptor()) {
 		c.Fail("decode:ttml-language", fmt.Sprintf("DecodeTTMLIso639LanguageCode = %q, encoded %q", g, l), wit{Case: "ttml", Body: mon.Hex(body), Detail: g})
 	}
-	if g := d.DecodeTTMLSubtitlePurpose(); g != purpose {
+	if g := d.DecodeTTMLSubtitlePurpose(); wellFormed && g != purpose {
 		c.Fail("decode:ttml-purpose", fmt.Sprintf("DecodeTTMLSubtitlePurpose = %#x, encoded %#x", g, purpose), wit{Case: "ttml", Body: mon.Hex(body), Detail: fmt.Sprint(g)})
 	}
 	if g := d.IsTTMLDescTagExtension(); g != (ext == 0x20) {
@@ -204,7 +228,7 @@ func own(c *mon.Ctx, r *gen.Rand) {
 		for k := range body {
 			body[k] ^= 0x33
 		}
-		if kept != l {
+		if wellFormed && kept != l {
 			c.Fail("decode:ttml-language-follows-buffer", fmt.Sprintf("a TTML language code decoded earlier changed from %q to %q when the caller overwrote the descriptor body", l, kept), wit{Case: "ttml", Detail: kept})
 		}
 	}
@@ -309,6 +333,10 @@ func run(c *mon.Ctx) {
 			if r.Bool() {
 				es.Descs = append(es.Descs, ref.Desc{Tag: 0x0a, Body: []byte{byte('a' + r.Intn(26)), byte('a' + r.Intn(26)), byte('a' + r.Intn(26)), byte(r.Intn(4))}})
 			}
+			if r.Chance(3) {
+				// further descriptors of other kinds: the lag query is decided by the stream type alone
+				es.Descs = append(es.Descs, ref.Desc{Tag: r.PickByte([]byte{0x6a, 0x7a, 0x05, 0x52, 0x56, 0x59, 0x7f, 0xcc, 0x81}), Body: r.Bytes(r.Intn(7))})
+			}
 			p.Streams = append(p.Streams, es)
 		}
 		// put the streams in a random order (the ES loop need not be sorted by PID)
@@ -340,7 +368,7 @@ func run(c *mon.Ctx) {
 				ds := es.Descriptors()
 				want := uint64(uint32(w.Descs[0].Body[0]&0x1f)<<16|uint32(w.Descs[0].Body[1])<<8|uint32(w.Descs[0].Body[2])) * 400
 				if es.ElementaryPid() != w.PID || len(ds) != len(w.Descs) || ds[0].Tag() != 0x0e || es.MaxBitRate() != want ||
-					(len(w.Descs) > 1 && ds[1].DecodeIso639LanguageCode() != string(w.Descs[1].Body[:3])) {
+					(len(w.Descs) > 1 && w.Descs[1].Tag == 0x0a && ds[1].DecodeIso639LanguageCode() != string(w.Descs[1].Body[:3])) {
 					c.Fail("decode:descriptors-changed-by-append", fmt.Sprintf("%s: after the caller appended to the descriptor lists it was given, stream %#x reports %d descriptors / bit rate %d (encoded: %d descriptors, bit rate %d)", when, w.PID, len(ds), es.MaxBitRate(), len(w.Descs), want),
 						wit{Case: "pmt descriptors " + when, Body: mon.Hex(pay)})
 					return false
